@@ -77,6 +77,10 @@ type JApiCore struct {
 	// directivesWithPastes directives after processing the MACRO and PASTE directives.
 	directivesWithPastes []*directive.Directive
 
+	// expandedDirectives counts the directives produced while MACRO and PASTE
+	// are processed.
+	expandedDirectives int
+
 	// uniqOperationID used for checking the uniqueness of the OperationId.
 	uniqOperationID map[string]struct{}
 }
